@@ -1,6 +1,7 @@
 ---------------------------- MODULE Trace_Leader ----------------------------
 (* P4 for C18: lines record the real leader function (index of the returned member, or a   *)
-(* panic) for a committee size n and a 64-bit view (BigNat limbs); "run" lines record n    *)
+(* panic) for a committee size n and a 64-bit view (BigNat limbs), the leader a term computes  *)
+(* (tidx) and the members its sender predicate recognises as leader (pred); "run" lines record n *)
 (* consecutive views.                                                                      *)
 EXTENDS BigNat, Json, IOUtils, FiniteSets
 Trace == ndJsonDeserialize(IOEnv.VERIF_TRACE)
@@ -11,6 +12,8 @@ Chk(cond, tag) == cond \/ PrintT(<<"VERIF_BAD", tag, l>>)
 LineOK == LET e == Trace[l] IN
   CASE e.op = "leader" -> /\ Chk(~e.panic, "leader_fails")
                           /\ Chk(e.panic \/ e.idx = ModSmall(e.v, e.n), "leader_index")
+                          /\ Chk(e.panic \/ e.tidx = ModSmall(e.v, e.n), "term_leader_index")
+                          /\ Chk(e.panic \/ e.pred = <<ModSmall(e.v, e.n)>>, "leader_predicate_disagrees")
     [] e.op = "run" -> /\ Chk(~e.panic, "leader_fails")
                        /\ Chk(e.panic \/ (Len(e.idxs) = e.n /\ Range(e.idxs) = 0..(e.n - 1)), "round_robin")
                        /\ Chk(e.panic \/ e.idxs[1] = ModSmall(e.start, e.n), "leader_index")
